@@ -455,7 +455,7 @@ pub fn reload_diff_check<const L: usize>(profile: &Profile, hist: &[Step], after
 /// Replay one recorded history (a replay artefact) on a fresh real book, judging every step with
 /// the given monitors exactly as the explorer does (incl. drain probe and reload differential).
 pub fn replay_history<const L: usize>(cfg: &RunCfg) -> Vec<(usize, Fail)> {
-    crate::ops::TRADER_BASE.store(cfg.profile.trader_base, Ordering::Relaxed);
+    crate::ops::set_traders(cfg.profile.trader_base, cfg.profile.trader_mod);
     let p = &cfg.profile;
     let mut out = Vec::new();
     let mut model = RefModel::new(p.start_time, p.tick, p.start_trading);
@@ -511,7 +511,7 @@ pub fn replay_history<const L: usize>(cfg: &RunCfg) -> Vec<(usize, Fail)> {
         track = t2;
         snap = after;
     }
-    crate::ops::TRADER_BASE.store(100, Ordering::Relaxed);
+    crate::ops::set_traders(100, 0);
     out
 }
 
@@ -530,7 +530,7 @@ fn record_fail(cfg: &RunCfg, st: &mut RunStats, f: &Fail, hist: &[Step], levels:
 /// Explore every history of length <= cfg.depth (after the base) with `L` published levels.
 pub fn run<const L: usize>(cfg: &RunCfg) -> RunStats {
     let t0 = Instant::now();
-    crate::ops::TRADER_BASE.store(cfg.profile.trader_base, Ordering::Relaxed);
+    crate::ops::set_traders(cfg.profile.trader_base, cfg.profile.trader_mod);
     let threads = util::n_threads();
     let sh = Shared {
         cfg,
@@ -678,7 +678,7 @@ pub fn run<const L: usize>(cfg: &RunCfg) -> RunStats {
     }
     total.complete = !sh.stop.load(Ordering::Relaxed);
     total.wall_s = t0.elapsed().as_secs_f64();
-    crate::ops::TRADER_BASE.store(100, Ordering::Relaxed);
+    crate::ops::set_traders(100, 0);
     total
 }
 
